@@ -117,24 +117,18 @@ def compare(ctx, mode, chain, hist, obs, flat, literal):
     return ok
 
 
-def run(ctx):
-    ctx.rule = ('keys {a,b} (thorough {a,b,c}), values 1..2; modes: existing on-chain big_map (4 content splits) and fresh literal (3 literals); every history of GET / MEM / UPDATE '
-                '(set or remove) / GET_AND_UPDATE up to 3 (4) operations. Leg A: the layered view (local bindings / removals over chain contents) equals a flat dictionary, '
-                'every observation equals the dictionary\'s, and the diff the layer stands for applied to the chain gives the dictionary. Leg B: each history is compiled into a '
-                'contract run by Interpreter.run_code against a simulated node serving the on-chain entries (real ShellQuery path); GET/MEM results, the emitted lazy diff '
-                'applied to the chain contents, its action/id and each key_hash (recomputed with hashlib) are compared; non-trivial = history has an update')
-    ctx.assumptions = ['string keys, nat values', 'the exact shape of the diff is not prescribed: only its effect, action, id and key hashes', 'key_hash recomputed independently (own PACK of a string + blake2b + base58)']
-    keys = ['a', 'b'] if ctx.quick else ['a', 'b', 'c']
-    depth = 3 if ctx.quick else 4
+def run_config(ctx, keys, depth, ninit):
     inits = [('existing', (1, 0, 2), (0, 0, 0)), ('existing', (0, 0, 0), (0, 0, 0)), ('existing', (1, 1, 1), (0, 0, 0)), ('existing', (0, 2, 0), (0, 0, 0)),
              ('fresh', (0, 0, 0), (0, 0, 0)), ('fresh', (0, 0, 0), (1, 0, 0)), ('fresh', (0, 0, 0), (1, 0, 2))]
     if not ctx.quick:
         inits = inits[:2] + inits[4:6] + [('existing', (2, 1, 0), (0, 0, 0))]
     else:
         inits = [inits[0], inits[3], inits[6]]
+    if ninit:
+        inits = [inits[0], inits[1]][:ninit]
     init_tla = '{' + ', '.join('<<"%s", F(%d, %d, %d), F(%d, %d, %d)>>' % ((m,) + c + l) for m, c, l in inits) + '}'
     gen = {'BigMapLayerMC': MC % init_tla}
-    r = ctx.tlc('BigMapLayerMC', CFG % (', '.join('"%s"' % k for k in keys), depth), gen=gen, timeout=1500, coverage=True)
+    r = ctx.tlc('BigMapLayerMC', CFG % (', '.join('"%s"' % k for k in keys), depth), gen=gen, timeout=1500, coverage=True, name='BigMapLayerMC_%d_%d' % (len(keys), depth))
     ctx.require_no_violation(r, 'BigMapLayer')
     ctx.require_coverage(r, ['Get', 'Mem', 'Upd', 'GetUpd'])
     outs = sorted((v for v in r.printed if v[0] == 'OUT'), key=repr)
@@ -145,6 +139,17 @@ def run(ctx):
         ctx.count((mode, tuple(sorted(chain.items())), tuple(sorted(lit.items())), hist), nontrivial=any(o[0] in ('upd', 'gau') for o in hist))
         if ok and len(hist) == depth and ctx.replayed % 211 == 1:
             ctx.sample({'mode': mode, 'chain': chain, 'literal': lit, 'ops': hist, 'observations': obs, 'final': flat}, limit=5)
+
+def run(ctx):
+    ctx.rule = ('keys {a,b} (thorough {a,b,c}), values 1..2; modes: existing on-chain big_map (4 content splits) and fresh literal (3 literals); every history of GET / MEM / UPDATE '
+                '(set or remove) / GET_AND_UPDATE up to 3 (4) operations. Leg A: the layered view (local bindings / removals over chain contents) equals a flat dictionary, '
+                'every observation equals the dictionary\'s, and the diff the layer stands for applied to the chain gives the dictionary. Leg B: each history is compiled into a '
+                'contract run by Interpreter.run_code against a simulated node serving the on-chain entries (real ShellQuery path); GET/MEM results, the emitted lazy diff '
+                'applied to the chain contents, its action/id and each key_hash (recomputed with hashlib) are compared; non-trivial = history has an update')
+    ctx.assumptions = ['string keys, nat values', 'the exact shape of the diff is not prescribed: only its effect, action, id and key hashes', 'key_hash recomputed independently (own PACK of a string + blake2b + base58)']
+    configs = [(['a', 'b'], 3, None)] if ctx.quick else [(['a', 'b', 'c'], 3, None), (['a', 'b'], 4, 2)]
+    for keys, depth, ninit in configs:
+        run_config(ctx, keys, depth, ninit)
     ctx.exhaustive = True
 
 
